@@ -58,9 +58,13 @@ type Attempt struct {
 //	grpc-wrapped    the same, wrapped with %w (status.Code sees through the wrapping)
 //	grpc-canceled   every failure, scripted ones too, carries status Canceled (a proxy relaying a cancellation)
 //	grpc-deadline   every failure carries status DeadlineExceeded
+//	grpc-unimplemented, grpc-denied, grpc-unauthenticated, grpc-notfound, grpc-invalid
+//	                every failure carries a status a client might take for permanent (the device
+//	                does not serve Subscribe yet, refuses the credentials, ...): a managed target is
+//	                retried all the same, for as long as it is managed
 //
 // A clean end of stream is always the bare io.EOF, as with gRPC.
-var errKinds = []string{"", "wrapped", "grpc", "grpc-wrapped", "grpc-canceled", "grpc-deadline"}
+var errKinds = []string{"", "wrapped", "grpc", "grpc-wrapped", "grpc-canceled", "grpc-deadline", "grpc-unimplemented", "grpc-denied", "grpc-unauthenticated", "grpc-notfound", "grpc-invalid"}
 
 func validErrKind(k string) bool {
 	for _, e := range errKinds {
@@ -328,7 +332,7 @@ var (
 	randPcts    = []int{0, 0, 0, 0, 0, 0, 0, 0, 50, 20}
 	tailFactors = []int{0, 0, 1, 5, 11, 11, 25, 25, 35} // tenths of the retry bound
 	// error values: plain ones as often as the shapes a gRPC transport produces
-	errKindsGen = []string{"", "", "", "", "wrapped", "grpc", "grpc", "grpc", "grpc-wrapped", "grpc-canceled", "grpc-deadline"}
+	errKindsGen = []string{"", "", "", "", "wrapped", "grpc", "grpc", "grpc", "grpc-wrapped", "grpc-canceled", "grpc-deadline", "grpc-unimplemented", "grpc-denied", "grpc-unauthenticated", "grpc-notfound", "grpc-invalid"}
 )
 
 func genMsg(t *rapid.T) Msg {
